@@ -73,6 +73,9 @@ func (db *DB) checkAndCleanFiles() error {
 				tmap[fd.Num] = true
 				nt++
 			}
+		case storage.TypeTemp:
+			// Left by an interrupted recovery; nothing uses it any more.
+			keep = false
 		}
 
 		if !keep {
